@@ -179,6 +179,15 @@ def c02(ctx):
             out.append((cid, "the value's own bytes map to different content"))
         if not kv.get('inside', '').startswith('ok'):
             out.append((cid, 'a reachable reference lies outside the slice or is misaligned: %s' % kv.get('inside')))
+    # the other entry points (FlatWrap::from_wrapped_bytes, from_mut_bytes) must agree with from_bytes on every slice
+    for cid, l in ctx.ops('M'):
+        r = ctx.rres.get(cid)
+        if r is None:
+            continue
+        kv = parse_kv(r)[2]
+        if kv.get('wrap', 'same').startswith('DIFF'):
+            out.append((cid, 'FlatWrap::from_wrapped_bytes / from_mut_bytes disagree with from_bytes: %s '
+                             '(same verdict : same content : same verdict of from_mut_bytes)' % kv['wrap']))
     return out, n
 
 
@@ -338,6 +347,8 @@ def c15(ctx):
             continue
         if 'OOB-WRITE' in flags:
             out.append((cid, 'emplacement wrote outside the buffer'))
+        if kv.get('wrap', 'same').startswith('DIFF'):
+            out.append((cid, 'FlatWrap::new_in_place behaves differently from new_in_place: %s' % kv['wrap']))
         if md['off'] % py_align(t) != 0:
             if not head.startswith('err:BadAlign'):
                 out.append((cid, 'misaligned buffer not refused with BadAlign: %s' % head))
